@@ -26,9 +26,10 @@ from .. import sched
 
 PROP = "C16"
 THEOREMS = ["C16_checker_decides", "C16_stage_bracket", "C16_middleware", "C16_middleware_cache",
-            "C16_multi", "C16_multi_stack", "C16_field_once_blocking", "C16_interleave"]
+            "C16_multi", "C16_multi_stack", "C16_field_once_blocking", "C16_interleave",
+            "C16_machine_linearises", "C16_field_once_deferred", "C16_apollo"]
 AXIOMS_OK = []
-RUN_MODULE = "Run.C16run Spec.TraceSpec Exec.TraceModel"
+RUN_MODULE = "Run.C16run Spec.TraceSpec Exec.TraceModel Exec.RuntimeMachine Exec.TraceDeferred"
 AGREE = "agree_C16"
 CASE_TYPE = "case_C16"
 SHARD = 40
@@ -397,7 +398,8 @@ class _Enc:
         return self.keys[k]
 
     def elem(self, x):
-        return 2 * x + 1 if isinstance(x, int) else 2 * self.key(x)
+        # list index i -> i (as in Exec/RuntimeMachine.v), response key number j -> 1000 + j
+        return x if isinstance(x, int) else 1000 + self.key(x)
 
     def path(self, p):
         return "[" + ";".join(str(self.elem(x)) for x in p) + "]"
@@ -447,10 +449,55 @@ def mw_awaits(case):
     return True
 
 
+def machine_applies(case):
+    """the run can be replayed on the executor machine of C08/C09: a deferred
+    runtime, no argument errors (the machine has no such outcome), and -- under
+    asyncio -- no awaiting middlewares (they turn every field into a coroutine)"""
+    if case["kind"] != "exec" or case["config"] not in DEFERRED_CFG or case.get("novalidate"):
+        return False
+    if case["config"] == "asyncio" and case["n"] > 0 and case.get("mw_async"):
+        return False
+    return True
+
+
+def _cprog(enc, case):
+    deferred = set(case["deferred"])
+
+    def flds(parent_type, path, sel):
+        out = "FNil"
+        for alias, name, _arg, sub in reversed(sel):
+            key = alias or name
+            p = path + [key]
+            tname, is_list = FIELDS[parent_type][name]
+            w = case["world"].get(_pkey(p), "val")
+            if w == "err":
+                body = "BErr"
+            elif w in ("null", "cerr"):
+                body = "BNull"
+            elif tname not in COMPOSITE:
+                body = "(BInt 1%Z)"
+            elif is_list:
+                items = "INil"
+                for idx in reversed(range(case["lens"].get(_pkey(p), 2))):
+                    items = "(ICons (ItObj %s) %s)" % (flds(tname, p + [idx], sub), items)
+                body = "(BList false %s)" % items
+            else:
+                body = "(BObj %s)" % flds(tname, p, sub)
+            dfr = "(Some (O, O))" if ("%s.%s" % (parent_type, name)) in deferred else "None"
+            out = "(FCons (Fld %d %s false %s) %s)" % (enc.elem(key), dfr, body, out)
+        return out
+
+    mut = case["op"] == "mutation"
+    return "(Prog %s %s)" % ("true" if mut else "false",
+                             flds("Mutation" if mut else "Query", [], case["sel"]))
+
+
 def _creq(enc, case):
-    return "(mkReq %d%%nat %d%%nat %s %s %s %s)" % (
+    prog = "(Some %s)" % _cprog(enc, case) if machine_applies(case) else "None"
+    return "(mkReq %d%%nat %d%%nat %s %s %s %s %s %s)" % (
         case["k"], case["n"], "true" if case["as_text"] else "false", oclass(case),
-        "true" if mw_awaits(case) else "false", _ctree(enc, build_tree(case)))
+        "true" if mw_awaits(case) else "false", _ctree(enc, build_tree(case)), prog,
+        "true" if case["config"] == "asyncio" else "false")
 
 
 def _crun(enc, r):
@@ -462,7 +509,8 @@ def _crun(enc, r):
         to = "(Some (mkTracer [%s] %s %s %s %s))" % (
             "; ".join(enc.path(p) for p in t["paths"]),
             *("true" if t[x] else "false" for x in ("all_ended", "parsing", "validation", "end")))
-    return "(mkRun %s %s %s)" % (tr, "true" if r["has_data"] else "false", to)
+    sched = "[" + "; ".join("(%s, %d%%nat)" % (enc.path(lb[0]), lb[1]) for lb in r["schedule"]) + "]"
+    return "(mkRun %s %s %s %s)" % (tr, "true" if r["has_data"] else "false", to, sched)
 
 
 def to_coq(case, obs):
@@ -654,8 +702,8 @@ def generate(rng, tier):
                 st = rng.choice(["plain", "tracer"] if k == 1 else ["multi", "tracer", "nested"])
                 cases.append(_base(config, kind=kind, as_text=as_text, k=k, stacking=st,
                                    n=rng.choice([0, 2]), mw_async=rng.random() < 0.5, **extra))
-    n_block = 200 if quick else 1500
-    n_def = 110 if quick else 450
+    n_block = 200 if quick else 1200
+    n_def = 110 if quick else 320
     for config in ("blocking", "generic"):
         for _ in range(n_block):
             cases.append(_gen_exec(rng, config, 0, 1))
@@ -675,7 +723,7 @@ def generate(rng, tier):
             deep = _base(config, sel=[[None, "o", None, [[None, "a", None, []], [None, "o", None, [[None, "a", None, []], [None, "b", None, []]]]]],
                                       [None, "p", None, [[None, "a", None, []], [None, "c", None, []]]], [None, "a", None, []]],
                          world={"o/o/a": "err", "p/c": "null"}, n=2, k=1, stacking="tracer", mw_async=config == "asyncio",
-                         deferred=["Query.o", "Query.p", "Query.a", "Obj.a", "Obj.o", "Obj.b", "Obj.c"], max_orders=5040)
+                         deferred=["Query.o", "Query.p", "Query.a", "Obj.a", "Obj.o", "Obj.b", "Obj.c"], max_orders=2520)
             cases.extend(_chunked(deep, 120))
     return cases
 
@@ -735,6 +783,25 @@ def shrink(case, is_bad):
     return cur
 
 
+def _machine_replay(cases, obss):
+    """second Coq pass: the C08/C09 executor machine run under each recorded
+    schedule, decorated with the field hooks, against the recorded events"""
+    from .. import common
+    idx = [i for i, c in enumerate(cases) if machine_applies(c) and "runs" in obss[i]]
+    if not idx:
+        return {"cases": 0}
+    cap = 60    # runs replayed per case (every case is replayed; long run lists are truncated)
+    terms = [to_coq(cases[i], dict(obss[i], runs=obss[i]["runs"][:cap])) for i in idx]
+    bad, problems = common.run_cases(PROP + "m", RUN_MODULE, "machine_agree_C16", terms,
+                                     shard=SHARD, case_type=CASE_TYPE)
+    out = {"cases": len(idx), "runs": sum(min(cap, len(obss[i]["runs"])) for i in idx),
+           "by_config": {cfg: sum(1 for i in idx if cases[i]["config"] == cfg) for cfg in DEFERRED_CFG},
+           "mismatching_cases": len(bad), "evaluation_problems": problems[:3]}
+    if bad:
+        out["first_mismatch"] = cases[idx[bad[0]]]
+    return out
+
+
 def extra_evidence(cases, obss):
     by = {}
     orders = {"exhaustive_cases": 0, "sampled_cases": 0, "runs": 0, "distinct_traces": 0, "max_runs_in_a_case": 0}
@@ -748,7 +815,7 @@ def extra_evidence(cases, obss):
         orders["runs"] += o.get("n_runs", 0)
         orders["distinct_traces"] += len(o.get("runs", []))
         orders["max_runs_in_a_case"] = max(orders["max_runs_in_a_case"], o.get("n_runs", 0))
-    return {"distribution": {
+    return {"machine_model_agreement": _machine_replay(cases, obss), "distribution": {
         "cases_by_config_and_kind": by, "outcome_classes": outcomes, "completion_orders": orders,
         "as_ast": sum(1 for c in cases if not c["as_text"]),
         "stacking": {s: sum(1 for c in cases if c["stacking"] == s) for s in ("plain", "multi", "tracer", "nested")},
